@@ -1,6 +1,6 @@
 #!/usr/bin/env python3
 """Run every quick check against a scratch copy of /repo's sources with one text edit (a probe mutant).
-usage: tools/try_edit.py <file under src/catii> <old text> <new text> [Cxx ...]"""
+usage: tools/try_edit.py <file under src/catii> <old text> <new text> [Cxx ...]   (TRY_COUNT=<k> picks the k-th occurrence, 0-based, of an ambiguous anchor)"""
 import os
 import sys
 from concurrent.futures import ThreadPoolExecutor
@@ -12,7 +12,7 @@ from selftest.mutate import run_variant
 f, old, new = sys.argv[1:4]
 old, new = old.encode().decode("unicode_escape"), new.encode().decode("unicode_escape")
 props = sys.argv[4:] or ["C%02d" % i for i in range(1, 21)]
-jobs = [{"prop": p, "name": "probe", "file": f, "old": old, "new": new, "expect": "fire"} for p in props]
+jobs = [{"prop": p, "name": "probe", "file": f, "old": old, "new": new, "expect": "fire", **({"count": int(os.environ["TRY_COUNT"])} if os.environ.get("TRY_COUNT") else {})} for p in props]
 with ThreadPoolExecutor(16) as ex:
     res = list(ex.map(run_variant, jobs))
 fired = []
